@@ -4,6 +4,8 @@ import McpModel.Resume.Monitor
 import McpModel.Resume.HoldMon
 import McpModel.Resume.BatchMon
 import McpModel.Resume.FanMon
+import McpModel.Resume.KeepMon
+import McpModel.Resume.IdMon
 /-!
 Driver for E5 (C08, C10).
 
@@ -42,6 +44,9 @@ structure DSess where
   names     : List SId := []        -- stream ids in order of first appearance: printed name of `names[i]` is t(i+1)
   reqIds    : List ReqId := []      -- every request id ever POSTed on this session (to enumerate `requestStreams`)
   subscribed : Bool := false        -- `resources/subscribe` was answered: entitled to `resources/updated`
+  direct    : Bool := false         -- the application hands the session's requests to `StreamableServerTransport.ServeHTTP`
+                                    -- itself (no `StreamableHTTPHandler`): no session table (no 404), no DELETE (405), and
+                                    -- the request context carries no protocol version (treated as 2025-03-26)
 
 structure DMon where
   core   : Mon.MonS String String := { store := false, jsonMode := false }   -- the typed monitor core
@@ -51,10 +56,13 @@ structure DMon where
   extra08 : Option String := none                                           -- claim clause of the last record
   batch  : Mon.BatchS String := {}                                          -- the typed core of the batch clauses (C02)
   extraB : Option String := none                                            -- batch clause of the last record
-  inflight : List (String × Nat) := []                                      -- (session, id): calls accepted and not yet finished by their handler
+  ids    : Mon.IdS String := {}                                             -- the typed core of the in-flight id clauses (C02 / C10)
+  extraI : Option Mon.ClauseI := none                                       -- in-flight id clause of the last record
   fan    : Mon.FanS String Nat := {}                                        -- the typed core of the fan-out clause (C10)
   extraF : Option String := none                                            -- fan-out clause of the last record
   subs   : List String := []                                                -- sessions whose resources/subscribe was answered (from the operations)
+  keep   : Mon.KeepS String := {}                                           -- the typed core of the retention clause (C08)
+  extraK : Option String := none                                            -- retention clause of the last record
 
 structure DState where
   cfg    : Option Cfg := none
@@ -321,6 +329,7 @@ def parsePurges (itoks : List String) : List (String × String × Nat) :=
   itoks.filterMap fun t =>
     match t.splitOn ":" with
     | ["p", s, st, f] => f.toNat?.map fun n => (s, st, n)
+    | ["p", s, st, f, _] => f.toNat?.map fun n => (s, st, n)      -- 5th field: f = the store has been over its limit, u = never
     | _ => none
 
 def mkCfg (d : DState) (stateless : Bool) : Cfg :=
@@ -411,11 +420,18 @@ def modelOp (d : DState) (toks : List String) : Option OpOut :=
   | "init" :: n :: _ =>
     let id := ((kvGet toks "id").bind String.toNat?).getD 0
     let v := parseVer (kvGet toks "v")
-    let s : DSess := { name := n, conn := init (mkCfg d false), reqIds := [id] }
+    let s : DSess := { name := n, conn := init (mkCfg d false), reqIds := [id], direct := kvGet toks "dt" == some "1" }
     let (d1, s1, _) := applyLabels d s [.post [id] false v (parseBudget (kvGet toks "b")),
                                         .write (.resp id s!"R.{id}.init") (some id) false]
     let (d2, s2) := settle d1 s1
     some { d := putSess d2 s2, snaps := [n] }
+  | "cancel" :: n :: _ =>
+    -- the client's notifications/cancelled for a request in flight: a POST without calls (202).  Nothing is released:
+    -- the request stays registered until its response is written (`registration_removed_only_by_response`)
+    some <| withSess d n fun s =>
+      if s.gone then let (d1, t) := handlerExch d 404; { d := d1, extra := [t], endsX := [d1.nex], snaps := [n] } else
+      let (d1, s1, _) := applyLabels d s [.post [] false (parseVer (kvGet toks "hv")) none]
+      { d := putSess d1 s1, snaps := [n] }
   | "note" :: n :: _ =>
     some <| withSess d n fun s =>
       if s.gone then let (d1, t) := handlerExch d 404; { d := d1, extra := [t], endsX := [d1.nex], snaps := [n] } else
@@ -539,6 +555,8 @@ def modelOp (d : DState) (toks : List String) : Option OpOut :=
   | ["delete", n] =>
     some <| withSess d n fun s =>
       if s.gone then let (d1, t) := handlerExch d 404; { d := d1, extra := [t], endsX := [d1.nex], snaps := [n] } else
+      -- `StreamableServerTransport.ServeHTTP` serves GET and POST only: 405, the session lives on
+      if s.direct then let (d1, t) := handlerExch d 405; { d := d1, extra := [t], endsX := [d1.nex], snaps := [n] } else
       let (d0, t) := handlerExch d 204
       let s := { s with closing := true, gone := true }
       let (d2, s2) := settle d0 s
@@ -778,6 +796,38 @@ def parseHObs (toks : List String) (impl : String) : Mon.HObs String :=
       if plain t && t.endsWith "." && !t.contains ':' then some (parseX ((t.splitOn ".").headD "")) else none,
     snaps := itoks.filterMap fun t => if (t.splitOn "[?]").length > 1 then none else parseSnap t }
 
+/-- the implementation's observation of one record as the retention clause (C08) sees it: the GET's well-formed
+Last-Event-ID, the exchanges answered with a bare status, the (session, stream) of every accepted append, whether an
+eviction by a store that has been over its limit is reported (`p:…:f`), the `isDone` flags of the snapshots -/
+def parseKObs (toks : List String) (impl : String) : Mon.KObs String :=
+  let itoks := words impl
+  let (sess, origin) := originOf toks
+  let plain := fun (t : String) => t.startsWith "x" && !t.contains '+' && !t.contains '!'
+  { sess := sess,
+    get := match origin with
+      | .get (.ok t i) _ => some (t, i)
+      | _ => none,
+    codes := itoks.filterMap fun t =>
+      if plain t then
+        match t.splitOn ":" with
+        | [xk, kind] => kind.toNat?.map fun code => (parseX xk, code)
+        | _ => none
+      else none,
+    appends := itoks.filterMap fun t =>
+      match t.splitOn ":" with
+      | "a" :: s :: stream :: _ => (parseT stream).map fun n => (s, n)
+      | _ => none,
+    forced := itoks.any fun t =>
+      match t.splitOn ":" with
+      | ["p", _, _, _, fl] => fl != "u"
+      | ["p", _, _, _] => true
+      | _ => false,
+    closed := itoks.filterMap fun t =>
+      if !t.startsWith "S" || (t.splitOn "[?]").length > 1 then none else
+      match t.splitOn "[" with
+      | [nm, rest] => some ((nm.drop 1).toString, rest.endsWith "D")
+      | _ => none }
+
 /-- snapshot `S<name>[t2:x3:o:4:1,2:s[:L];…|1>t2,2>t2]D?` with the outstanding requests and `requestStreams` -/
 def parseBSnap (tok : String) : Option (Mon.BSnap String) :=
   if !tok.startsWith "S" || (tok.splitOn "[?]").length > 1 then none else
@@ -867,9 +917,11 @@ def DMon.onRecord (m : DMon) (d : DState) (toks : List String) (impl : String) :
   let hr := Mon.holdStep m.hold (parseHObs toks impl)
   let br := Mon.batchStep m.batch (parseBObs toks impl)
   let fr := Mon.fanStep m.fan (parseFObs (m.subs.filter fun n => !m.gone.contains n) toks impl)
+  let kr := Mon.keepStep m.keep (parseKObs toks impl)
   let m : DMon := { m with core := r.1, hold := hr.1, extra08 := hr.2.map Mon.ClauseH.text,
                            batch := br.1, extraB := br.2.map Mon.ClauseB.text,
-                           fan := fr.1, extraF := fr.2.map Mon.ClauseF.text }
+                           fan := fr.1, extraF := fr.2.map Mon.ClauseF.text,
+                           keep := kr.1, extraK := if d.store then kr.2.map Mon.ClauseK.text else none }
   -- a session is entitled to resources/updated once its resources/subscribe has been answered
   let m : DMon := match toks with
     | "plain" :: n :: _ =>
@@ -890,35 +942,36 @@ def DMon.onRecord (m : DMon) (d : DState) (toks : List String) (impl : String) :
           (m, some "C10: a response produced by the handler reached neither an exchange nor the store (lost)")
         else (m, none)
       else (m, none)
-    | ["delete", n] => ({ m with gone := m.gone ++ [n] }, none)
+    | ["delete", n] =>
+      -- (a session served by `transport.ServeHTTP` directly answers DELETE with 405 and lives on)
+      if itoks.any (·.endsWith ":405") then (m, none) else ({ m with gone := m.gone ++ [n] }, none)
     | ["kill", n] => ({ m with gone := m.gone ++ [n] }, none)
     | _ => (m, none)
-  -- C02 on the streamable server: a call is refused as "duplicate in-flight id" only if one of its ids IS in flight.
-  -- In flight = accepted by an earlier POST of the session and its handler has not finished (`resp` is the handler finishing,
-  -- whether or not its response could be delivered).
+  -- C02 / C10 on the streamable server (typed core `Mon.idStep`): a call is refused as "duplicate in-flight id" only if one of
+  -- its ids IS in flight, and is accepted only if none is.  In flight = accepted by an earlier POST of the session and its
+  -- handler has not finished (`resp` is the handler finishing, whether or not its response could be delivered).
   let opened : List (Nat × String) := itoks.filterMap fun t =>
     if t.startsWith "x" && !t.contains '+' && !t.contains '!' then
       match t.splitOn ":" with
       | [xk, kind] => some (parseX xk, kind)
       | _ => none
     else none
-  let (m, extra02) : DMon × Option String := match toks with
+  let iobs : Mon.IdObs String := match toks with
     | "call" :: n :: _ =>
-      if !n.startsWith "s" || m.gone.contains n then (m, none) else
+      if !n.startsWith "s" || m.gone.contains n then .other else
       let ids := (parseIds (kvGet toks "ids")).eraseDups
       match opened.head? with
-      | some (_, kind) =>
-        if kind == "sse" || kind == "json" then ({ m with inflight := m.inflight ++ ids.map fun r => (n, r) }, none)
-        else if kind == "400" && !(ids.any fun r => m.inflight.contains (n, r)) then
-          (m, some "C02: a well-formed call whose id is not in flight (its earlier user has been answered or its response was dropped as undeliverable) was refused as a duplicate in-flight id")
-        else (m, none)
-      | none => (m, none)
+      | some (_, kind) => .call n ids (kind == "sse" || kind == "json") (kind == "400")
+      | none => .other
     | "duprace" :: n :: _ =>
+      -- two POSTs with the same ids racing: exactly one of them is served (the other is refused whatever was in flight)
       let ids := (parseIds (kvGet toks "ids")).eraseDups
-      if opened.any (fun x => x.2 == "sse" || x.2 == "json") then ({ m with inflight := m.inflight ++ ids.map fun r => (n, r) }, none)
-      else (m, none)
-    | ["resp", n, r, _] => ({ m with inflight := m.inflight.erase (n, r.toNat?.getD 0) }, none)
-    | _ => (m, none)
+      if opened.any (fun x => x.2 == "sse" || x.2 == "json") then .call n ids true false else .other
+    | ["resp", n, r, _] => .finished n (r.toNat?.getD 0)
+    | _ => .other
+  let ir := Mon.idStep m.ids iobs
+  let m := { m with ids := ir.1, extraI := ir.2 }
+  let extra02 : Option String := ir.2.map Mon.ClauseI.text02
   ({ m with extra10 := extra.orElse fun _ => extra02 }, r.2)
 
 /-! ## engine -/
@@ -937,12 +990,17 @@ def engine (prop : String) : Engine DState where
       -- `af=1` (last token of an `emit` / `resp`): the event store fails the `Append` of this op's write
       let af := toks.getLast? == some "af=1" && (toks.head? == some "emit" || toks.head? == some "resp") && d.store
       let toks := if toks.getLast? == some "af=1" then toks.dropLast else toks
+      -- a session served by `transport.ServeHTTP` directly: the handler is what copies the Mcp-Protocol-Version header into
+      -- the request context, so every request of such a session is served as 2025-03-26 (an initialize still carries its
+      -- version in its body: `v=` is kept)
+      let isDirect := ((toks[1]?).bind (getSess d)).map (·.direct) == some true
+      let mtoks := if isDirect then toks.map fun t => if t.startsWith "hv=" then "hv=a" else t else toks
       -- evictions are choices of the store (they depend on byte sizes): the model takes them from the record
       let itoks0 := words impl
       let d := { d with evicts := parsePurges itoks0, ptoks := itoks0.filter (·.startsWith "p:"), win := itoks0.contains "win=1", af := af }
       -- (they happen inside `Append`, before the new entry is added: for a plain op they take effect at its end —
       -- nothing in it reads the store after an append —, the race ops place them between their two parties)
-      match modelOp d toks with
+      match modelOp d mtoks with
       | none => (d, { model := "bad-op" })
       | some o =>
         let o := { o with d := applyEvicts o.d }
@@ -957,10 +1015,11 @@ def engine (prop : String) : Engine DState where
         let model := body ++ o.tail
         let (m, v) := d.mon.onRecord dn toks impl
         -- first violated clause of the requested property: typed core, then the op-level clause
-        let v08 := (v.v08.map Mon.Clause08.text).orElse fun _ => m.extra08
+        let v08 := ((v.v08.map Mon.Clause08.text).orElse fun _ => m.extra08).orElse fun _ => m.extraK
         let ext := fun (p : String) => m.extra10.filter (·.startsWith p)
-        let v10 := ((v.v10.map Mon.Clause10.text).orElse fun _ => ext "C10").orElse fun _ => m.extraF
-        let v02 := (ext "C02").orElse fun _ => m.extraB
+        let v10 := (((v.v10.map Mon.Clause10.text).orElse fun _ => ext "C10").orElse fun _ => m.extraF).orElse fun _ =>
+          m.extraI.bind Mon.ClauseI.text10
+        let v02 := ((ext "C02").orElse fun _ => m.extraI.map Mon.ClauseI.text02).orElse fun _ => m.extraB
         let mviol := if prop == "C08" then v08 else if prop == "C10" then v10 else if prop == "C02" then v02
           else (v10.orElse fun _ => v08).orElse fun _ => v02
         let crashed := impl.startsWith "panic" || (words impl).contains "w=panic" || (impl.splitOn "PANIC").length > 1
